@@ -5,7 +5,9 @@ package main
 
 import (
 	"fmt"
+	"go/constant"
 	"go/token"
+	"go/types"
 	"strings"
 
 	"golang.org/x/tools/go/ssa"
@@ -580,45 +582,117 @@ func isShellSingleQuoter(p *Prog, f *ssa.Function) bool {
 			return
 		}
 		n++
-		/* ("'" + X) + "'" */
-		outer, ok := ret.Results[0].(*ssa.BinOp)
-		if !ok || token.ADD != outer.Op {
+		/* "'" followed by the escaped parameter followed by "'", however
+		it is put together. */
+		ps, known := stringPieces(f, ret.Results[0], 0)
+		if !known || 3 != len(ps) {
 			okAll = false
 			return
 		}
-		q2, ok2 := constString(outer.Y)
-		inner, ok3 := outer.X.(*ssa.BinOp)
-		if !ok2 || "'" != q2 || !ok3 || token.ADD != inner.Op {
+		q1, ok1 := constString(ps[0])
+		q2, ok2 := constString(ps[2])
+		esc, ok3 := ps[1].(*ssa.Call)
+		if !ok1 || !ok2 || !ok3 || "'" != q1 || "'" != q2 {
 			okAll = false
 			return
 		}
-		q1, ok4 := constString(inner.X)
-		if !ok4 || "'" != q1 {
-			okAll = false
-			return
-		}
-		esc, ok := inner.Y.(*ssa.Call)
-		if !ok {
-			okAll = false
-			return
-		}
-		switch calleeName(esc.Common()) {
-		case "strings.ReplaceAll":
-			a, _ := constString(esc.Common().Args[1])
-			b, _ := constString(esc.Common().Args[2])
-			if esc.Common().Args[0] != ssa.Value(f.Params[0]) || "'" != a || `'\''` != b {
-				okAll = false
-			}
-		case "(*strings.Replacer).Replace":
-			prs, ok := replacerPairs(p, esc.Common().Args[0])
-			if !ok || 2 != len(prs) || "'" != prs[0] || `'\''` != prs[1] || esc.Common().Args[1] != ssa.Value(f.Params[0]) {
-				okAll = false
-			}
-		default:
+		arg, good, _ := quoteEscape(p, esc)
+		if !good || arg != ssa.Value(f.Params[0]) {
 			okAll = false
 		}
 	})
 	return okAll && n > 0
+}
+
+// stringPieces: the string v as the concatenation of pieces, in order:
+// through +, through a strings.Builder / bytes.Buffer local to f which is
+// written in straight-line code, and through fmt.Sprintf with %s verbs only.
+func stringPieces(f *ssa.Function, v ssa.Value, depth int) ([]ssa.Value, bool) {
+	if depth > 6 {
+		return nil, false
+	}
+	switch x := v.(type) {
+	case *ssa.BinOp:
+		if token.ADD == x.Op {
+			l, ok1 := stringPieces(f, x.X, depth+1)
+			r, ok2 := stringPieces(f, x.Y, depth+1)
+			return append(l, r...), ok1 && ok2
+		}
+	case *ssa.Call:
+		switch calleeName(x.Common()) {
+		case "(*strings.Builder).String", "(*bytes.Buffer).String":
+			sb, ok := x.Common().Args[0].(*ssa.Alloc)
+			if !ok {
+				return nil, false
+			}
+			var out []ssa.Value
+			good := true
+			for _, ref := range *sb.Referrers() {
+				c, isCall := ref.(*ssa.Call)
+				if !isCall {
+					if _, isDbg := ref.(*ssa.DebugRef); !isDbg {
+						good = false
+					}
+					continue
+				}
+				if c == x {
+					continue
+				}
+				if c.Block() != x.Block() || !instrDominates(c, x) {
+					good = false /* written in a loop or on some paths only */
+					continue
+				}
+				switch calleeName(c.Common()) {
+				case "(*strings.Builder).WriteString", "(*bytes.Buffer).WriteString":
+					ps, ok := stringPieces(f, c.Common().Args[1], depth+1)
+					if !ok {
+						good = false
+					}
+					out = append(out, ps...)
+				case "(*strings.Builder).WriteByte", "(*bytes.Buffer).WriteByte", "(*strings.Builder).WriteRune", "(*bytes.Buffer).WriteRune":
+					k, isC := constInt(c.Common().Args[1])
+					if !isC {
+						good = false
+						continue
+					}
+					out = append(out, ssa.NewConst(constant.MakeString(string(rune(k))), types.Typ[types.String]))
+				case "(*strings.Builder).Grow", "(*bytes.Buffer).Grow", "(*strings.Builder).Len", "(*bytes.Buffer).Len":
+				default:
+					good = false
+				}
+			}
+			/* Referrers come in program order within a block. */
+			return out, good
+		case "fmt.Sprintf":
+			format, ok := constString(x.Common().Args[0])
+			if !ok {
+				return nil, false
+			}
+			args := orderedVariadic(x.Common())
+			var out []ssa.Value
+			k := 0
+			for {
+				j := strings.Index(format, "%")
+				if j < 0 {
+					break
+				}
+				if j+1 >= len(format) || 's' != format[j+1] || k >= len(args) {
+					return nil, false
+				}
+				if j > 0 {
+					out = append(out, ssa.NewConst(constant.MakeString(format[:j]), types.Typ[types.String]))
+				}
+				out = append(out, stripConv(args[k], false))
+				k++
+				format = format[j+2:]
+			}
+			if "" != format {
+				out = append(out, ssa.NewConst(constant.MakeString(format), types.Typ[types.String]))
+			}
+			return out, k == len(args)
+		}
+	}
+	return []ssa.Value{v}, true
 }
 
 // isNewlinePredicate: f(r rune) bool returns r == '\n'.
